@@ -169,12 +169,7 @@ def run_tool(argv, cwd, root=None, plan=None, clock=None, env=None, san=False, p
     t0 = time.monotonic()
     p = subprocess.Popen(argv, cwd=cwd, env=e, stdin=stdin if stdin is not None else subprocess.DEVNULL,
                          stdout=subprocess.PIPE, stderr=subprocess.PIPE, preexec_fn=_limits, close_fds=True)
-    try:
-        r.stdout, r.stderr = p.communicate(timeout=wall * (3 if san else 1))
-    except subprocess.TimeoutExpired:
-        p.kill()
-        r.stdout, r.stderr = p.communicate()
-        r.timeout = True
+    r.stdout, r.stderr, r.timeout = _drain(p, wall * (3 if san else 1))
     r.wall = time.monotonic() - t0
     rc = p.returncode
     if rc < 0:
@@ -197,6 +192,50 @@ def run_tool(argv, cwd, root=None, plan=None, clock=None, env=None, san=False, p
             r.trace = parse_trace(f.read())
         os.unlink(trace_path)
     return r
+
+
+OUTPUT_CAP = 16 << 20
+
+
+def _drain(p, wall):
+    """Collects stdout/stderr with a wall-clock limit and an output cap (a tool that floods diagnostics
+    forever is a hang, and must not exhaust the harness's memory).  Returns (stdout, stderr, timed_out)."""
+    import selectors
+    sel = selectors.DefaultSelector()
+    bufs = {p.stdout: [], p.stderr: []}
+    sizes = {p.stdout: 0, p.stderr: 0}
+    for f in bufs:
+        os.set_blocking(f.fileno(), False)
+        sel.register(f, selectors.EVENT_READ)
+    deadline = time.monotonic() + wall
+    timed_out = False
+    open_n = 2
+    while open_n:
+        left = deadline - time.monotonic()
+        if left <= 0 or max(sizes.values()) > OUTPUT_CAP:
+            timed_out = True
+            p.kill()
+            break
+        for key, _ in sel.select(min(left, 1.0)):
+            f = key.fileobj
+            try:
+                chunk = os.read(f.fileno(), 1 << 16)
+            except BlockingIOError:
+                continue
+            if not chunk:
+                sel.unregister(f)
+                open_n -= 1
+            else:
+                sizes[f] += len(chunk)
+                if sizes[f] <= OUTPUT_CAP + (1 << 16):
+                    bufs[f].append(chunk)
+    p.wait()
+    for f in bufs:
+        try:
+            f.close()
+        except OSError:
+            pass
+    return b"".join(bufs[p.stdout]), b"".join(bufs[p.stderr]), timed_out
 
 
 _asan_path = None
